@@ -93,6 +93,12 @@ Lemma walk_statement_arms_agree :
           (filter reaches_switch all_tt) = true.
 Proof. split; vm_compute; reflexivity. Qed.
 
+(* the nesting bound of array values, and that popValue still has one recursive call guarded by it *)
+Lemma max_value_depth_agrees : max_value_depth = TokensGen.max_value_depth.
+Proof. reflexivity. Qed.
+Lemma pop_value_guarded : TokensGen.pop_value_recursive_calls = 1 /\ TokensGen.pop_value_depth_guards = 1.
+Proof. split; reflexivity. Qed.
+
 (* explicit panic( calls in the anchored files: only the default arm of the formatter's type
    switch over the closed set of fragment types (unreachable: walkFragments builds no other type) *)
 Lemma panic_sites_reviewed : TokensGen.panic_sites = [("fmt.go", "diffFile")].
